@@ -87,7 +87,13 @@ def run(tier, seed):
     for v in VERSIONS:
         g = gen.MsgGen(rng, version=v)
         mts = g.structures()
-        for mt in (rng.sample(mts, min(len(mts), per))):
+        # the most deeply nested structures of the version are always among them (a bound on the nesting — seed C08-i — bites only there)
+        def nesting(ref, d=0):
+            if not (gen.is_seq(ref) and len(ref) >= 2 and gen.is_seq(ref[1])) or d > 12:
+                return d
+            return max([d] + [nesting(r[1], d + 1) for r in ref[1] if gen.is_seq(r) and len(r) == 4 and r[3] == 'GRP'])
+        deepest = sorted(mts, key=lambda k: -nesting(g.lib.MESSAGES[k]))[:2]
+        for mt in sorted(set(rng.sample(mts, min(len(mts), per))) | set(deepest)):
             for style in ('required', 'all', 'random', 'random'):
                 try:
                     t, der, names = g.message(mt, style, rich=False)
